@@ -93,4 +93,53 @@ theorem appbits_fails (w : Wire) (hw : w.WF = true) (ha : w.appbits = true) (qs 
       simp only [canonP, canonH, hxp, ↓reduceIte, h2, Wire.toPacket, hx, Option.isSome_some, ExtBlock.elements] at this
       exact elems_ne_legacy items hitems _ this.symm
 
+/-! ### the packet decoder with unread block bytes (reserved-id region) -/
+
+/-- general form: the payload starts `wireUnread w` bytes before the end of the header bytes, so
+    the unread block bytes come out in front of the payload -/
+theorem pktUnmarshal_encode_gen (w : Wire) (r : Packet) (h : wireOk w = true) :
+    pktUnmarshal r w.encode =
+      .ok { header := hdrOf r.header w,
+            payload := (headBytes w).drop (w.extEnd - wireUnread w) ++ w.payload,
+            paddingSize := w.toPacket.paddingSize } := by
+  have hpad : (match w.pad with | some f => decide (f.length ≤ 254) | none => true) = true := by
+    simp only [wireOk, Bool.and_eq_true] at h; exact h.2
+  have hH := headBytes_length w
+  generalize hn : w.extEnd - wireUnread w = n
+  have hnle : n ≤ (headBytes w).length := by omega
+  simp only [pktUnmarshal, hdrUnmarshal_encode w r.header h, hn]
+  have hp : (hdrOf r.header w).padding = w.pad.isSome := by simp [hdrOf, Wire.toPacket]
+  rw [hp, encode_split]
+  have hdrop : ∀ tail : Bytes, (headBytes w ++ tail).drop n = (headBytes w).drop n ++ tail := by
+    intro tail; rw [List.drop_append_of_le_length hnle]
+  cases hx : w.pad with
+  | none =>
+    simp only [Option.isSome_none, Bool.false_eq_true, ↓reduceIte, encodePad, List.append_nil, hdrop]
+    simp [Wire.toPacket, hx]
+  | some f =>
+    simp only [hx, decide_eq_true_eq] at hpad
+    have hc : (f.length + 1).toUInt8.toNat = f.length + 1 := by simp [Nat.toUInt8]; omega
+    have hlast : (headBytes w ++ (w.payload ++ encodePad (some f))).getLastD 0 = (f.length + 1).toUInt8 := by
+      simp only [encodePad]
+      rw [← List.append_assoc, ← List.append_assoc]
+      simp
+    simp only [Option.isSome_some, ↓reduceIte, hlast, hc]
+    have hl : (headBytes w ++ (w.payload ++ encodePad (some f))).length = (headBytes w).length + w.payload.length + f.length + 1 := by
+      simp [encodePad]; omega
+    have h1 : ¬ ((headBytes w).length + w.payload.length + f.length + 1 ≤ n) := by omega
+    have h2 : ¬ ((headBytes w).length + w.payload.length + f.length + 1 < n + (f.length + 1)) := by omega
+    simp only [hl, h1, h2, ↓reduceIte]
+    have hs : slice (headBytes w ++ (w.payload ++ encodePad (some f))) n
+        ((headBytes w).length + w.payload.length + f.length + 1 - (f.length + 1)) = (headBytes w).drop n ++ w.payload := by
+      simp only [slice, hdrop, encodePad]
+      have e : (headBytes w).length + w.payload.length + f.length + 1 - (f.length + 1) - n =
+          ((headBytes w).drop n ++ w.payload).length := by simp; omega
+      rw [e, ← List.append_assoc, List.take_left]
+    rw [hs]
+    simp [Wire.toPacket, hx]
+
+
+theorem take_extEnd (w : Wire) : w.encode.take w.extEnd = headBytes w := by
+  rw [encode_split, ← headBytes_length, List.take_left]
+
 end Rtp.Proofs.Wire
